@@ -101,6 +101,10 @@ def solve_one(job):
             except Exception as e:
                 res['reason'] += ' | cvc5 error: %s' % e
     res['seconds'] = time.time() - t0
+    if os.environ.get('PYVC_DUMP_UNKNOWN'):
+        import re
+        with open(os.path.join(os.environ['PYVC_DUMP_UNKNOWN'], re.sub(r'[^A-Za-z0-9_.-]+', '_', str(key))[:150] + '.smt2'), 'w') as f:
+            f.write(smt2)
     return res
 
 
